@@ -17,6 +17,7 @@ type Node struct {
 	Op     string `json:"op"`
 	Xs     []int  `json:"xs,omitempty"`    // slice leaf / from value / pfrom key,value
 	Spare  int    `json:"spare,omitempty"` // slice leaf: the source is a window buf[:len] of a buffer with this much capacity behind it
+	Long   int    `json:"long,omitempty"`  // slice leaf: Long generated elements (i*7+3)%23 instead of Xs (lengths around powers of two)
 	F      int    `json:"f,omitempty"`     // function family member
 	A      int    `json:"a,omitempty"`     // function parameters
 	B      int    `json:"b,omitempty"`
@@ -27,6 +28,18 @@ type Node struct {
 }
 
 type kv struct{ K, V int }
+
+// xs is the content of a slice leaf.
+func (n *Node) xs() []int {
+	if n.Long <= 0 {
+		return n.Xs
+	}
+	out := make([]int, n.Long)
+	for i := range out {
+		out[i] = (i*7 + 3) % 23
+	}
+	return out
+}
 
 func mod(x, m int) int {
 	if m <= 0 {
@@ -134,15 +147,16 @@ func (b *builder) S(n *Node, shift int) seq.Seq[int] {
 		return nil
 	case "slice":
 		// the source is a window of a larger buffer; the capacity behind it holds sentinels that must survive
-		buf := make([]int, len(n.Xs)+n.Spare)
+		xs := n.xs()
+		buf := make([]int, len(xs)+n.Spare)
 		for i := range buf {
 			buf[i] = -777 - i
 		}
-		for i, x := range n.Xs {
+		for i, x := range xs {
 			buf[i] = x + shift
 		}
 		b.sources = append(b.sources, [2][]int{buf, append([]int{}, buf...)})
-		return seq.FromSlice(buf[:len(n.Xs)])
+		return seq.FromSlice(buf[:len(xs)])
 	case "from":
 		return seq.From(n.Xs[0] + shift)
 	case "takeWhile":
@@ -218,7 +232,7 @@ func evalS(n *Node, shift int) []int {
 	switch n.Op {
 	case "nil":
 	case "slice":
-		for _, x := range n.Xs {
+		for _, x := range n.xs() {
 			out = append(out, x+shift)
 		}
 	case "from":
